@@ -139,6 +139,17 @@ fn replay_input(id: &str, _inp: &serde_json::Value) -> i32 {
 pub fn probe(name: &str) -> i32 {
     match name {
         "eio" => c01::probe_eio(),
+        "large-file" => {
+            let (v, _) = c01::large_file_probe();
+            for x in &v {
+                eprintln!("{}: {}", x.sig, x.detail);
+            }
+            if v.is_empty() {
+                0
+            } else {
+                1
+            }
+        }
         _ => 2,
     }
 }
